@@ -128,8 +128,8 @@ PROPS['C06'] = {
 PROPS['C09'] = {
     'level': 'proof',
     'verus_units': ['lossy'],
-    'kani': {'quick': [], 'thorough': []},
-    'explanation': 'Verus proof on the real add(): the Lossy Counting invariant (f <= true <= f+delta, delta <= completed windows, untracked => true <= completed windows) is preserved for EVERY ghost true-count function; guarantee lemmas derive no-miss / no-intruder from it. Kani cannot execute std HashMap, so violations carry no-failing-input-found.',
+    'kani': {'quick': [('topk__lossycounter.rs', 'c09_lossy_with_epsilon_width_grid', 'bounded(the 1022 epsilons num/1024; HashMap::new stubbed with a fixed-key hasher state)')], 'thorough': []},
+    'explanation': 'Verus proof on the real add(): the Lossy Counting invariant (f <= true <= f+delta, delta <= completed windows, untracked => true <= completed windows) is preserved for EVERY ghost true-count function; guarantee lemmas derive no-miss / no-intruder from it. Kani cannot execute std HashMap operations (HashMap::new is stubbed for the one constructor harness: with_epsilon => width == ceil(1/epsilon), bounded grid), so violations of the add/query clauses carry no-failing-input-found.',
     'trusted_base': COMMON_TRUST + ['vstd HashMap / entry-API specifications (obeys_key_model::<T>() assumed)',
                                     'R4: prune statement `drain().filter(P).collect()` replaced by a stub whose postcondition embeds the predicate text P captured from the source each run (std iterator semantics assumed)',
                                     'query(): the lazy iterator chain is not verified; its filter predicate text is captured and used in the guarantee lemmas'],
